@@ -85,8 +85,13 @@ def run_check(check, tier, registry):
                "--run-cap", str(cspec.get("run_cap", spec.get("run_cap", 60)))]
         if engine != "twin" and n_entries:
             # shard compiled workers by composition; rotate with the seed
-            ents = [(seed * workers + k) % n_entries for k in range(workers)]
-            cmd += ["--entries", ",".join(map(str, ents))]
+            ents = [str((seed * workers + k) % n_entries) for k in range(workers)]
+            if workers < n_entries <= 2 * workers and check != "C13":
+                # more catalogue entries than workers: every worker alternates between two, so
+                # that one batch executes every composition of the catalogue in this engine
+                ents = [f"{(seed * workers + k) % n_entries}+{(seed * workers + k + workers) % n_entries}"
+                        for k in range(workers)]
+            cmd += ["--entries", ",".join(ents)]
         try:
             p = subprocess.run(cmd, cwd=VERIF, env=env, capture_output=True, text=True,
                                timeout=b + 240)
